@@ -1,0 +1,51 @@
+//go:build verif
+
+package xdsresource
+
+// Contracts checked by /verif (contract-based deductive verification).
+// This file is comment-only; it is compiled only with -tags=verif.
+
+// ---- C46: runtime fraction ----------------------------------------------------
+//
+// With t the value drawn uniformly from [0, 1000000): a fraction of f per
+// million must match exactly f of the million draws, i.e. match() == (t < f).
+// The contract is split so that the one draw on which the implementation
+// differs (t == f, see known_findings.json) is a separate obligation.
+
+//@ func (*fractionMatcher).match
+//@   prop C46
+//@   nopanic
+//@   requires fm != nil
+//@   assert at call RandInt64n#1 arg0 == 1000000
+//@   ensures 0 <= lastrand() && lastrand() < 1000000
+//@   ensures implies(lastrand() != fm.fraction, result == (lastrand() < fm.fraction))
+//@   ensures implies(lastrand() == fm.fraction, !result)
+
+// ---- C46: domain pattern classification and matching -----------------------------
+
+//@ spec func hasStar(d string) bool {
+//@   return exists(func(i int) bool { return 0 <= i && i < len(d) && d[i] == '*' })
+//@ }
+
+//@ func matchTypeForDomain
+//@   prop C46
+//@   pure
+//@   nopanic
+//@   ensures implies(d == "", result == domainMatchTypeInvalid)
+//@   ensures implies(d == "*", result == domainMatchTypeUniversal)
+//@   ensures implies(len(d) >= 2 && d[0] == '*', result == domainMatchTypeSuffix)
+//@   ensures implies(len(d) >= 2 && d[0] != '*' && d[len(d)-1] == '*', result == domainMatchTypePrefix)
+//@   ensures implies(len(d) >= 1 && d[0] != '*' && d[len(d)-1] != '*', result == ite(hasStar(d), domainMatchTypeInvalid, domainMatchTypeExact))
+
+// match(domain, host): the classification of the pattern, and whether host
+// matches it: exact equality, host ends with the part after a leading '*',
+// host starts with the part before a trailing '*', or anything for "*".
+//@ func match
+//@   prop C46
+//@   nopanic
+//@   ensures result0 == matchTypeForDomain(domain)
+//@   ensures implies(result0 == domainMatchTypeInvalid, !result1)
+//@   ensures implies(result0 == domainMatchTypeUniversal, result1)
+//@   ensures implies(result0 == domainMatchTypeExact, result1 == (domain == host))
+//@   ensures implies(result0 == domainMatchTypeSuffix, result1 == (len(host) >= len(domain)-1 && host[len(host)-(len(domain)-1):] == domain[1:]))
+//@   ensures implies(result0 == domainMatchTypePrefix, result1 == (len(host) >= len(domain)-1 && host[:len(domain)-1] == domain[:len(domain)-1]))
